@@ -427,7 +427,7 @@ STANDINS = {
 }
 
 
-for _p in ('C01', 'C02', 'C04', 'C07', 'C08', 'C13', 'C15', 'C16'):
+for _p in ('C01', 'C02', 'C04', 'C06', 'C07', 'C08', 'C13', 'C15', 'C16'):
     STANDINS.setdefault(_p, []).append(
         {'name': 'scenarios', 'bin': 'scenarios', 'extract': False, 'confirm': True, 'args': {'quick': [_p, '--quick'], 'thorough': [_p]},
          'assumed_contract': 'none assumed: the transfer loops are under contract; scripted RFC 7440 peers (in-memory sockets) run against the real Worker with executable twins of the '
